@@ -162,6 +162,14 @@ def unaryOp (op : UOp) (y : Int) (prec : Nat) : Int :=
 /-- `constant.Compare` (both representations compare the mathematical values) -/
 def compare (c : Go.Cmp) (x y : Int) : Bool := exactCmp c x y
 
+/-- `constant.CompareSpaceShip` on Int values (the Wa-only `x <=> y`): the int64 case compares
+`x == y`, `x < y`, `x > y` directly, the big case is `big.Int.Cmp` -/
+def spaceship (x y : Int) : Int :=
+  if fits64 x && fits64 y then
+    (if x = y then 0 else if x < y then -1 else 1)
+  else
+    (if x < y then -1 else if x = y then 0 else 1)
+
 /-- result of an operation that may yield `Unknown` or panic -/
 inductive CRes | ok (v : Int) | unknown | panic
   deriving DecidableEq, Repr, Inhabited
@@ -392,6 +400,13 @@ def declCmpTyped (word : Nat) (k : Kind) (c : Go.Cmp) (x y : Int) : Verdict :=
   | .ok _, e => e
   | e, _ => e
 
+/-- `const c = K(x) <=> K(y)`: an `int` constant -1 / 0 / 1 -/
+def declShipTyped (word : Nat) (k : Kind) (x y : Int) : Verdict :=
+  match checkConvert word k x, checkConvert word k y with
+  | .ok x', .ok y' => .ok (spaceship x' y')
+  | .ok _, e => e
+  | e, _ => e
+
 /-- `const c K = n / d.0`-style: an untyped rational quotient assigned to an integer type -/
 def declRatAssign (word : Nat) (k : Kind) (n d : Int) : Verdict :=
   if d = 0 then .divzero else
@@ -428,6 +443,11 @@ def runUn (t : Go.ITy) (op : UOp) (x : Int) : Int :=
   | .not => dec t (Go.compl (enc t x))
 
 def runConv (t1 t2 : Go.ITy) (x : Int) : Int := dec t2 (Go.conv t1.signed (enc t1 x) t2.bits)
+
+/-- the run-time three-way comparison on the encodings -/
+def runShip (t : Go.ITy) (x y : Int) : Int :=
+  if Go.cmp t.signed .eq (enc t x) (enc t y) then 0
+  else if Go.cmp t.signed .lt (enc t x) (enc t y) then -1 else 1
 
 def runCmp (t : Go.ITy) (c : Go.Cmp) (x y : Int) : Bool := Go.cmp t.signed c (enc t x) (enc t y)
 
